@@ -101,6 +101,7 @@ func init() {
 	vr := vcRuns()
 	checks["C01"].Runs = append(checks["C01"].Runs, vr[0], vr[2])
 	checks["C09"].Runs = append(checks["C09"].Runs, vr[1], vr[2])
+	checks["C01"].Runs = append(checks["C01"].Runs, runSpec{Harness: pkgWitness + ".VerifUpdateInline", Quick: p("n", 6, "signers", 1, "vc_inline", 1), Thorough: p("n", 12, "signers", 1, "vc_inline", 1), Covers: []string{"inline/growth-accepted", "inline/proof-refused"}})
 	// histories of length two on one witness instance (in-process state between calls)
 	twoCovers := []string{"two/both-accepted-different-logs", "two/both-accepted-same-log", "two/same-bytes-replayed-to-another-log"}
 	for _, id := range []string{"C01", "C02", "C03", "C04", "C12"} {
@@ -122,6 +123,7 @@ func init() {
 	reg(&checkSpec{ID: "C05", Assumptions: append([]string{"yield points: every sync.(RW)Mutex operation and every database/sql operation; code between yield points is atomic (lock discipline)", "A-db with a single pooled connection (cmd/omniwitness sets MaxOpenConns(1))"}, commonAssumptions...), Runs: []runSpec{
 		{Harness: pkgWitness + ".VerifConcurrent", Quick: p("threads", 2, "logs", 2, "signers", 1, "maxproof", 1, "store", 0), Thorough: p("threads", 2, "logs", 2, "signers", 2, "maxproof", 2, "store", 0), Covers: append([]string{"conc/storage-conflict"}, concCovers...)},
 		{Harness: pkgWitness + ".VerifConcurrent", Quick: p("threads", 2, "logs", 2, "signers", 1, "maxproof", 1, "store", 1), Thorough: p("threads", 2, "logs", 2, "signers", 2, "maxproof", 2, "store", 1), Covers: concCovers},
+		{Harness: pkgWitness + ".VerifConcurrent", Quick: p("threads", 2, "logs", 1, "signers", 1, "maxproof", 0, "store", 1, "dbfaults", 1), Thorough: p("threads", 2, "logs", 1, "signers", 1, "maxproof", 1, "store", 1, "dbfaults", 1), Covers: []string{"conc/some-accepted"}},
 		{Harness: pkgWitness + ".VerifConcurrent", OnlyThorough: true, Thorough: p("threads", 3, "logs", 1, "signers", 1, "maxproof", 0, "store", 0), Covers: append([]string{"conc/storage-conflict"}, concCovers...)},
 		{Harness: pkgWitness + ".VerifConcurrent", OnlyThorough: true, Thorough: p("threads", 3, "logs", 1, "signers", 1, "maxproof", 0, "store", 1), Covers: concCovers},
 	}})
